@@ -17,4 +17,16 @@ CHECKS = {
    technique='explicit enumeration of bound forms / Sep option vectors x elements x separators x enclosing contexts x all inputs of length <=5/6; reference-model trace vs implementation',
    text='Every static bound 0<=m<=n<=3 (operator and constructor spelling), data-dependent bounds from let names, template parameters, class fields and inline Python, and all 12 admissible Sep option vectors x 3 separators, over 4 element kinds, each placed in 8 enclosing contexts, run on all inputs up to the bound and compared with the reference interpreter (value, consumed prefix, failure).',
    note='Trusted: reference interpreter. {1,k} with run-time k=0 (min>max) is treated as ill-formed like its static counterpart which List() rejects.'),
+ 'C07': dict(engine='E1',
+   technique='explicit enumeration of multi-reference start expressions x rule-body menus x all inputs <=4, plus exponential families to nesting depth 40/80; zero-width inline-Python probes count evaluations per <rule, position> on the real parser',
+   text='Every start expression with <=2 operators that mentions a rule at least twice (so every way of reaching one rule from several alternatives, sequence positions, lookaheads, repetitions and Longest branches at one position occurs) x 9 (thorough 36) rule-body combinations x all inputs: evaluation count per <rule, position> must be <=1, total <= rules x (n+1), repeated results must be the same object, and the outcome must equal the memoised reference model (which is itself checked equal to the un-memoised model). Families with exponential un-memoised cost must terminate within budget at depth 40/80.',
+   note='Trusted: the probe is zero-width; reference interpreter. The set of positions at which a rule is evaluated is deliberately not compared (speculative or pruned evaluation would still satisfy the statement).'),
+ 'C08': dict(engine='E1',
+   technique='explicit enumeration of grammars x every rule/class entry point x all inputs <=4 (incl. empty) x every start offset x both fullparse values; three-outcome rule derived from the reference model, plus shift invariance checked on the implementation',
+   text='Every expression with <=1 (thorough <=2) operators plus class, zero-width and class-as-start variants; each rule and class used as entry (module parse, R.parse, C.parse); every input incl. the empty one, every offset, both fullparse values. The outcome must be exactly RET(value) / PartialParseError(value, end) / ParseError as the model dictates (spans included), never another exception, and parsing text from k must equal parsing text[k:] from 0 shifted by k.',
+   note='Trusted: reference interpreter. ParseError index is not compared against the model here (C09 constrains it); shift invariance skipped for grammars with Backtrack.'),
+ 'C09': dict(engine='E1',
+   technique='(a) every error raised in exhaustively enumerated multi-line / bytes / lookbehind / operator-table / list universes is checked; (b) exhaustive grid of error-line length x error column x surrounding lines for the excerpt and caret',
+   text='All errors of ~2000 enumerated grammars x all inputs x all offsets are checked for index range, token-level reachability bound, line/column arithmetic and None-at-end-of-input; the excerpt grid covers every error-line length 0..230 (thorough 460) x every column x 5 prefixes x 4 suffixes x ParseError/PartialParseError (+ bytes), checking the caret stands under text[index] and the excerpt stays on one line. Exhaustive within the grid.',
+   note='Trusted: reading of "first character no token can match" as token-level reachability (an upper bound, demands less). Grid texts use one offending character that is unique in the text.'),
 }
